@@ -96,6 +96,17 @@ pub fn run(api: &str, case: &J) -> J {
             json!({"ok": results})
         },
         "capi_functions" => json!({"ok": FUNCTIONS}),
+        // units::match_units(dim, scale) -> names, dims and scales of the returned database units
+        "match_units" => {
+            use libhaystack::units::{match_units, unit_dimension::UnitDimensions};
+            let d: Vec<i8> = case["dims"].as_array().unwrap().iter().map(|x| x.as_i64().unwrap() as i8).collect();
+            let dim = UnitDimensions { kg: d[0], m: d[1], sec: d[2], k: d[3], a: d[4], mol: d[5], cd: d[6] };
+            let scale = f64::from_bits(u64::from_str_radix(case["scale"].as_str().unwrap(), 16).unwrap());
+            let mut out: Vec<J> = match_units(dim, scale).iter().map(|u| json!({"name": u.name(), "scale": format!("{:016x}", u.scale.to_bits()),
+                "dims": u.dimensions.map(|x| vec![x.kg, x.m, x.sec, x.k, x.a, x.mol, x.cd])})).collect();
+            out.sort_by_key(|j| j["name"].as_str().unwrap().to_string()); out.dedup();
+            json!({"ok": out})
+        }
         // cache invisibility: q2 after q1 on one namespace ("warm") against q2 on a fresh one ("cold")
         "ns_history" => {
             use libhaystack::defs::namespace::{DefDict, Namespace};
